@@ -152,6 +152,20 @@ def key_repr(tensor):
     return f"{tensor.dtype.name}:{np.asarray(tensor.numpy()).tolist()!r}"
 
 
+def split_kw(case, args):
+    """case['kw_from'] = k: the operands from index k on are passed by keyword (the formal's name); None operands
+    among them are simply omitted.  -> (positional list, {name: value})"""
+    k = case.get("kw_from")
+    if k is None:
+        return list(args), {}
+    F = case["schema"]["formals"]
+    kw = {}
+    for j in range(k, len(args)):
+        if case["args"][j][0] != "N":
+            kw[F[j]["name"]] = args[j]
+    return list(args[:k]), kw
+
+
 # --------------------------------------------------------------------------------------------- eager
 
 _CAP = None
@@ -211,8 +225,12 @@ def run_eager(case):
     # omitted optional inputs that precede nothing are passed as explicit None (the generated opset
     # methods declare e.g. Loop(self, M, cond, *v_initial, body)); trailing None is stripped by the method
     n_fixed = sum(1 for f in r["formals"] if f["opt"] != "OVariadic")
-    while len(args) < n_fixed:
+    while len(args) < n_fixed and case.get("kw_from") is None:
         args.append(None)
+    args, kwargs = split_kw(case, args)
+    if case.get("kw_from") is not None:
+        for j in range(len(case["args"]), n_fixed):
+            kwargs.setdefault(r["formals"][j]["name"], None)
     attrs = {n: (onnx.GraphProto() if t == "GRAPH" else dummy_attr(n, t)) for n, t in r["required"]}
     cap = _capturing_evaluator()
     cap.seen = None
@@ -222,7 +240,7 @@ def run_eager(case):
                 # Python operator on onnxscript.tensor.Tensor (its default opset is opset18)
                 _PYOPS[case["syntax"]](args[0], args[1])
             else:
-                getattr(opset, r["name"])(*args, **attrs)
+                getattr(opset, r["name"])(*args, **kwargs, **attrs)
     except Exception as e:  # noqa: BLE001
         return obs_of_exc(e), None
     schema, inputs = cap.seen
@@ -276,10 +294,13 @@ def run_builder(case, oracle):
     attrs = {}
     for n, t in r["required"]:
         attrs[n] = ir.Graph([], [], nodes=[], name=n) if t == "GRAPH" else dummy_attr(n, t)
+    all_args = list(args)
+    pargs, kwargs = split_kw(case, args)
     try:
-        res = getattr(gb.op, r["name"])(*args, **attrs)
+        res = getattr(gb.op, r["name"])(*pargs, **kwargs, **attrs)
     except Exception as e:  # noqa: BLE001
         return obs_of_exc(e), None
+    args = all_args
     out0 = res if isinstance(res, ir.Value) else res[0]
     node = out0.producer()
     if node is None or node.op_type != r["name"]:
@@ -357,6 +378,10 @@ def script_source(case, fname):
             kw.append(f"{n}={gdefs[1][n]}")
         else:
             kw.append(f"{n}={dummy_attr(n, t)!r}")
+    if case.get("kw_from") is not None:
+        k = case["kw_from"]
+        F = r["formals"]
+        call = call[:k] + [f"{F[j]['name']}={call[j]}" for j in range(k, len(call)) if case["args"][j][0] != "N"]
     return (f"@script(default_opset=op{r['use']})\n"
             f"def {fname}({', '.join(params)}):\n"
             + pre.replace("op.", f"op{r['use']}.")
